@@ -43,6 +43,74 @@ type input struct {
 	Features []hbFeat `json:"features,omitempty"`
 	Flags    uint16   `json:"flags,omitempty"`
 	Level    uint8    `json:"level,omitempty"`
+	// Holes: runes the face's character map is made to lack (a font without these glyphs): fallback, decomposition
+	// and missing-glyph paths of the shapers
+	Holes []rune `json:"holes,omitempty"`
+}
+
+// holeCmap hides some runes of a character map.
+type holeCmap struct {
+	font.Cmap
+	hide map[rune]bool
+}
+
+func (c holeCmap) Lookup(r rune) (font.GID, bool) {
+	if c.hide[r] {
+		return 0, false
+	}
+	return c.Cmap.Lookup(r)
+}
+
+func withHoles(face *font.Face, holes []rune) *font.Face {
+	if len(holes) == 0 || face == nil || face.Font == nil || face.Font.Cmap == nil {
+		return face
+	}
+	ft := *face.Font
+	h := map[rune]bool{}
+	for _, r := range holes {
+		h[r] = true
+	}
+	ft.Cmap = holeCmap{face.Font.Cmap, h}
+	return font.NewFace(&ft)
+}
+
+// fontAlphabets: the runes of the face's own character map grouped by script (at most 96 per script, evenly spread
+// over the covered code points so that letters, dependent signs, viramas and digits all occur), for the scripts with
+// at least three covered runes.
+func fontAlphabets(face *font.Face) (tags []string, alpha map[string][]rune) {
+	alpha = map[string][]rune{}
+	if face == nil || face.Font == nil || face.Font.Cmap == nil {
+		return nil, alpha
+	}
+	all := map[string][]rune{}
+	it := face.Font.Cmap.Iter()
+	n := 0
+	for it.Next() && n < 200000 {
+		r, _ := it.Char()
+		n++
+		sc := language.LookupScript(r)
+		if sc == language.Unknown || sc == language.Common || sc == language.Inherited {
+			continue
+		}
+		all[sc.String()] = append(all[sc.String()], r)
+	}
+	for tag, rs := range all {
+		if len(rs) < 3 {
+			continue
+		}
+		sort.Slice(rs, func(i, j int) bool { return rs[i] < rs[j] })
+		if len(rs) > 96 {
+			pick := make([]rune, 0, 96)
+			for i := 0; i < 96; i++ {
+				pick = append(pick, rs[i*len(rs)/96])
+			}
+			rs = pick
+		}
+		alpha[tag] = rs
+		tags = append(tags, tag)
+	}
+	sort.Strings(tags)
+	return tags, alpha
 }
 
 type hbFeat struct {
@@ -90,7 +158,7 @@ var alphabets = map[string][]rune{
 	"Hebr": {0x05D0, 0x05D1, 0x05DC, 0x05B8, 0x05BC, 0x05C1, 0x0020, 0x05E9},
 	"Deva": {0x0915, 0x094D, 0x0937, 0x093F, 0x0930, 0x0902, 0x093C, 0x0947, 0x0020, 0x0924},
 	"Thai": {0x0E01, 0x0E33, 0x0E48, 0x0E34, 0x0E19, 0x0E49, 0x0E32},
-	"Hang": {0x1100, 0x1161, 0x11A8, 0xAC00, 0xD55C},
+	"Hang": {0x1100, 0x1161, 0x11A8, 0xAC00, 0xD55C, 0xB894, 0xBDC1, 0xAC01, 0x1112, 0x1175, 0x11C2, 0x302E, 0x115F, 0x1160},
 	"Mymr": {0x1000, 0x1039, 0x1000, 0x103C, 0x1031, 0x102C, 0x1037},
 	"Khmr": {0x1780, 0x17D2, 0x1798, 0x17C1, 0x17B6},
 	"Beng": {0x0995, 0x09CD, 0x09B7, 0x09BF, 0x09C7, 0x09BE},
@@ -123,6 +191,10 @@ func genText(r *rand.Rand, script string) []rune {
 	}
 	return t
 }
+
+// scripts handled by the default shaper: left out of the per-rune boundary scope
+var simpleScripts = map[string]bool{"Latn": true, "Grek": true, "Cyrl": true, "Hani": true, "Hira": true, "Kana": true, "Armn": true,
+	"Geor": true, "Copt": true, "Goth": true, "Cher": true, "Ethi": true, "Cans": true, "Yiii": true, "Brai": true}
 
 var indicScripts = map[string]bool{"Beng": true, "Deva": true, "Guru": true, "Gujr": true, "Orya": true, "Taml": true, "Telu": true, "Knda": true, "Mlym": true}
 
@@ -193,6 +265,15 @@ type result struct {
 	glyphs     int
 }
 
+func indexOf(t []rune, x rune) int {
+	for i, r := range t {
+		if r == x {
+			return i
+		}
+	}
+	return 0
+}
+
 func shapeOnce(face *font.Face, in input) (res result) {
 	done := make(chan result, 1)
 	go func() {
@@ -208,6 +289,7 @@ func shapeOnce(face *font.Face, in input) (res result) {
 			done <- r
 		}()
 		sc, _ := language.ParseScript(in.Script)
+		face := withHoles(face, in.Holes)
 		if in.HB {
 			r.glyphs, r.kind, r.fail = shapeHB(face, in, sc)
 			return
@@ -461,6 +543,65 @@ func main() {
 			continue
 		}
 		hist["fonts"]++
+		ownTags, ownAlpha := fontAlphabets(face)
+		// deterministic Hangul scope for fonts with conjoining jamo: precomposed LV / LVT syllables the font has or is
+		// made to lack, alone, last in the run, before a trailing jamo, a letter or a tone mark
+		if _, okL := face.NominalGlyph(0x1100); okL {
+			if _, okV := face.NominalGlyph(0x1161); okV {
+				for _, syl := range []rune{0xAC00, 0xAC01, 0xB894, 0xD7A3} {
+					for _, ctx := range [][]rune{{syl}, {syl, 0x11A8}, {syl, 'a'}, {'a', syl}, {syl, 0x302E}, {0x1100, 0x1161, syl}, {syl, syl}} {
+						for _, hole := range [][]rune{nil, {syl}} {
+							for _, e := range []int{len(ctx), indexOf(ctx, syl) + 1} {
+								in := input{Font: ref.name + ":" + ref.path, Text: ctx, RunStart: 0, RunEnd: e, Dir: 0, Script: "Hang", Holes: hole}
+								res := shapeOnce(face, in)
+								evals++
+								hist["hangul-scope"]++
+								if res.fail != "" {
+									hist["fail:"+res.kind]++
+									key := res.kind + "|" + in.Font
+									if !reported[key] && len(reported) < 40 {
+										reported[key] = true
+										enc.Encode(map[string]any{"fail": res.fail, "kind": res.kind, "what": res.fail, "input": in})
+									}
+								}
+							}
+						}
+					}
+				}
+			}
+		}
+		// deterministic scope over the font's own runes of its complex scripts: every rune alone, as the last rune of a
+		// run after a base and a space, and as the first rune before a base (lone dependent signs, rephas, viramas,
+		// jamo at the run boundaries), at the shaping.Shape level
+		for _, tag := range ownTags {
+			if simpleScripts[tag] {
+				continue
+			}
+			a := ownAlpha[tag]
+			base := a[0]
+			for _, x := range a {
+				for _, c := range []struct {
+					text []rune
+					s, e int
+				}{{[]rune{x}, 0, 1}, {[]rune{base, ' ', x, base}, 0, 3}, {[]rune{x, base}, 0, 2}} {
+					if time.Since(start) > budget {
+						break
+					}
+					in := input{Font: ref.name + ":" + ref.path, Text: c.text, RunStart: c.s, RunEnd: c.e, Dir: 0, Script: tag}
+					res := shapeOnce(face, in)
+					evals++
+					hist["own-boundary"]++
+					if res.fail != "" {
+						hist["fail:"+res.kind]++
+						key := res.kind + "|" + in.Font
+						if !reported[key] && len(reported) < 40 {
+							reported[key] = true
+							enc.Encode(map[string]any{"fail": res.fail, "kind": res.kind, "what": res.fail, "input": in})
+						}
+					}
+				}
+			}
+		}
 		for ti := 0; ti < nTexts; ti++ {
 			if time.Since(start) > budget {
 				hist["budget-cut"]++
@@ -472,6 +613,22 @@ func main() {
 				script = "Latn" // AAT sample fonts mostly have Latin state tables (ligatures, contextual forms)
 			}
 			text := genText(r, script)
+			if len(ownTags) > 0 && ti%5 >= 3 {
+				// text over the font's own runes of one of its scripts (any sequence: mostly broken syllables, dependent
+				// signs first or last), a few specials mixed in
+				script = ownTags[r.Intn(len(ownTags))]
+				a := ownAlpha[script]
+				n := 1 + r.Intn(8)
+				text = text[:0]
+				for len(text) < n {
+					if r.Intn(8) == 0 {
+						text = append(text, specials[r.Intn(len(specials))])
+					} else {
+						text = append(text, a[r.Intn(len(a))])
+					}
+				}
+				hist["own-alphabet"]++
+			}
 			L := len(text)
 			s, e := 0, L
 			if r.Intn(3) == 0 && L > 0 {
@@ -483,6 +640,19 @@ func main() {
 				dir |= 4 | 8 // sideways
 			}
 			in := input{Font: ref.name + ":" + ref.path, Text: text, RunStart: s, RunEnd: e, Dir: dir, Script: script}
+			if script == "Hang" && ti%2 == 0 { // a font with jamo but without (some of) the precomposed syllables
+				for _, x := range text[s:e] {
+					if x >= 0xAC00 && x <= 0xD7A3 && r.Intn(4) != 0 {
+						in.Holes = append(in.Holes, x)
+					}
+				}
+			}
+			if ti%7 == 3 && e > s { // a font lacking some of the runes of the run
+				for k := 1 + r.Intn(2); k > 0; k-- {
+					in.Holes = append(in.Holes, text[s+r.Intn(e-s)])
+				}
+				hist["holes"]++
+			}
 			if (ti%3 == 2 || (aat && ti%3 == 1)) && e > s { // harfbuzz.Buffer level: ranged and global features, flags, cluster levels
 				in.HB = true
 				in.Dir &= 3
